@@ -21,3 +21,5 @@ pub broadcast proof fn lemma_ends_with_is_suffix(s: &[Label], n: &[Label])
 // <[T]>::contains: membership up to the element type's equality (structural for the derived impls used here)
 pub assume_specification<T: std::cmp::PartialEq> [<[T]>::contains] (s: &[T], x: &T) -> (r: bool)
     ensures <T as vstd::std_specs::cmp::PartialEqSpec>::obeys_eq_spec() ==> r == exists|i: int| 0 <= i < s@.len() && #[trigger] s@[i].eq_spec(x);
+// std: <[u8]>::is_ascii - every octet below 128
+pub assume_specification [<[u8]>::is_ascii] (s: &[u8]) -> (r: bool) ensures r == (forall|i: int| 0 <= i < s@.len() ==> (#[trigger] s@[i]) <= 127);
